@@ -523,11 +523,16 @@ func Run(c *evid.Ctx) {
 			}
 		}
 	}
+	hd := 4
+	if c.Thorough() {
+		hd = 5
+	}
+	licenceHistories(c, hd, &evals, &nontriv)
 	vnet.Use(nil)
 	c.Count("evaluations", evals)
 	c.Count("distinct_nontrivial", nontriv)
 	c.Cov["deviation_bound_k"] = k
-	c.Cov["rule"] = "one evaluation = one pack object of the eight pinned types (at most k reflected slots deviating from two bases, incl. both header forms and all decimal classes of the project code) whose ToBytesPack bytes are compared with the reference encoder field by field, and which is then sent through the real OneWayTcpClient over the in-memory network: the bytes the peer receives must equal the reference frame (source 10, version 0, pcode, licence hash, length, payload); plus every (default licence, per-send licence, project code) combination of the alphabets"
+	c.Cov["rule"] = "one evaluation = one pack object of the eight pinned types (at most k reflected slots deviating from two bases, incl. both header forms and all decimal classes of the project code) whose ToBytesPack bytes are compared with the reference encoder field by field, and which is then sent through the real OneWayTcpClient over the in-memory network: the bytes the peer receives must equal the reference frame (source 10, version 0, pcode, licence hash, length, payload); plus every (default licence, per-send licence, project code) combination of the alphabets, plus every history up to the stated length of sends and licence changes (field assignment, ApplyConfig) on one client object"
 	c.Sample("CounterPack1 base1 Netstat.FinW:=alt5 → frame 0a 00 <pcode 8> <H64(licence) 8> <len 4> 02 01 <header> <blob>")
 	c.Sample("EventPack base1 Uuid:=alt0")
 	c.Assume("no protocol document is available offline: the reference encoders are written from the layout in the property text and DESIGN.md Appendix C")
